@@ -186,6 +186,8 @@ def splitAtBar : List String → List String → List String × List String
   | x :: rest, acc => splitAtBar rest (x :: acc)
 
 def retryJudge (f : List String) (out : String) : String :=
+  if out.endsWith "attempts-on-the-same-backend-differ" then
+    "bad:retry-attempts-differ:two attempts on the same backend were handed different requests (headers, URL or body)" else
   match parseRetryCase f with
   | none => "bad:unparsable:case"
   | some (c, u2) =>
